@@ -284,7 +284,7 @@ def gamma(ctx, R="R-C20-gamma"):
     ctx.need(alpha is not None, R, "alpha not found")
     got = None
     for tests, leaf in cc.strip_cond(alpha):
-        if any(l == "T" and S.show(t) == "(n > 1)" for l, t in tests):
+        if any(l == "T" and S.show(t) in ("(n > 1)", "(1 < n)") for l, t in tests):
             got = leaf
     want = S.truediv(S.sub(n_, S.ONE), S.sub(width, S.mul(peak, width)))
     ctx.check(got is not None and S.compare(got, want, domain={})["verdict"] == "equal", R, f, f.node,
@@ -310,7 +310,7 @@ def gamma(ctx, R="R-C20-gamma"):
     off_leaf = {}
     for tests, leaf in cc.strip_cond(offs):
         for l, t in tests:
-            if S.show(t) == "(n > 1)":
+            if S.show(t) in ("(n > 1)", "(1 < n)"):
                 off_leaf[l == "T"] = leaf
     ctx.need(set(off_leaf) == {True, False}, R, "offs is not decided by order > 1")
     ctx.check(S.compare(off_leaf[True], S.sub(width, S.ONE), domain={})["verdict"] == "equal", R, f, f.node,
